@@ -6,6 +6,17 @@ import subprocess
 ROOT = os.path.dirname(os.path.dirname(os.path.abspath(__file__)))
 
 CHECKS = {
+    "C16": dict(
+        technique="TLA+ specification of the reader's conventions (Swc.tla) whose state machine grows every well-formed SWC "
+                  "file point by point under TLC; each enumerated file is written to disk and read by swc_to_jaxley / read_swc "
+                  "and compared with the specification's sections, lengths, types, parents, radius breakpoints, groups",
+        category="model_checking", design="4/C16",
+        text="Exhaustive over structure (every pre-ordered tree x type labelling with <= 6 points [thorough 7], 1-3 soma points, type "
+             "changes along neurites), seeded lengths 0..3 and radii 1..3: ~5000 files per run, every one read by the real reader; "
+             "sections, path lengths (single-point soma 2r, ignored soma gap, zero length -> 1), connector branch, parent relation, "
+             "radius interpolation at compartment centres incl. min_radius clipping, groups by type, independence of ncomp.",
+        note="What 'well-formed' covers is stated in Swc.tla; max_branch_len splitting is not modelled; the radius of sections that "
+             "start at the root point of a multi-point soma is modelled as coded (named deviation)."),
     "C17": dict(
         technique="TLC-executed abstract interpreter (ExprAbs.tla) over the jaxprs of forward/inverse: derived cells, constant "
                   "(saturated) cells; per-cell concrete obligations with a backward-stable round-trip tolerance; Transforms.tla "
